@@ -2,14 +2,20 @@
 (* A data-described family of AIRs (algebraic intermediate representations) and its meaning.
 
    A description `d` is a record
-     [width, log_len, shapes, pcyc, init, exemptions, asserts, aux, meta]
+     [width, log_len, shapes, pcyc, init, exemptions, asserts, aux, meta, extra]
    * shapes[j]  names the next-state function of main column j (see ShapeTerms): the transition
                 constraint of column j is   next[j] - F_j(current row, periodic values) = 0
                 on every step 0 .. L - exemptions - 1;
    * pcyc       cycle lengths of the periodic columns (values PerValue(k, i));
    * init       first row; * asserts  assertions whose VALUES are those of the honest trace;
    * aux        <<>> or <<[width, rands, src]>>: running-product auxiliary columns
-                aux[m][i+1] = aux[m][i] * (main[src[m]][i] + r[m % rands]),  aux[m][0] = 1.
+                aux[m][i+1] = aux[m][i] * (main[src[m]][i] + r[m % rands] + p_0(i)),  aux[m][0] = 1,
+                where p_0 is the first periodic column (0 if the AIR has none).
+   * extra      sequence of column indexes: the transition constraint of each listed column is stated
+                once more, AHEAD of the per-column constraints (constraint list = extras, then one per
+                column). The duplicates do not change which traces are valid; they make the number of
+                constraints exceed the number of columns and move the per-column constraints off the
+                positions equal to their column index.
    The harness' GenAir (harness/stark/src/genair.rs) interprets the JSON form (DescJson) as a
    winterfell `Air`; this module owns what a description MEANS: the honest trace, the value of every
    constraint on every row, which (trace, public values) pairs are valid. Over the toy fields the
@@ -56,7 +62,7 @@ DescJson(d) ==
    cols |-> [j \in 1..d.width |-> ShapeTerms(d.shapes[j], j - 1, d.width)],
    periodic |-> [k \in 1..Len(d.pcyc) |-> PerColumn(k - 1, d.pcyc[k])],
    init |-> d.init, exemptions |-> d.exemptions, asserts |-> d.asserts,
-   aux |-> d.aux, meta |-> d.meta]
+   aux |-> d.aux, meta |-> d.meta, extra |-> d.extra]
 
 (***************************************************************************)
 (* Declared degrees and the bounds the AIR context enforces (records with   *)
@@ -147,24 +153,29 @@ ValidMain(P, d, rows, vals) == AssertionsHold(d, rows, vals) /\ TransitionsHold(
 (* Auxiliary segment (running products) over a toy field, base-field rands *)
 (***************************************************************************)
 \* aux rows as a sequence of rows; a[m][0] = 1, a[m][i+1] = a[m][i] * (main[src[m]][i] + r[m % rands])
+\* value of the first periodic column at step i (0 without periodic columns)
+AuxPer(P, d, i) == IF Len(d.pcyc) = 0 THEN 0 ELSE PerValue(0, d.pcyc[1], i) % P
+AuxFactor(P, d, rows, rands, m, i) ==
+  FAdd(P, FAdd(P, rows[i + 1][d.aux[1].src[m] + 1], rands[((m - 1) % d.aux[1].rands) + 1]), AuxPer(P, d, i))
 RECURSIVE AuxRowsFrom(_, _, _, _, _, _)
-AuxRowsFrom(P, ad, rows, rands, cur, i) ==
-  IF i > Len(rows) THEN <<>>
-  ELSE <<cur>> \o AuxRowsFrom(P, ad, rows, rands,
-                    [m \in 1..ad.width |-> FMul(P, cur[m], FAdd(P, rows[i][ad.src[m] + 1], rands[((m - 1) % ad.rands) + 1]))],
-                    i + 1)
+AuxRowsFrom(P, d, rows, rands, cur, i) ==
+  IF i >= Len(rows) THEN <<cur>>
+  ELSE <<cur>> \o AuxRowsFrom(P, d, rows, rands,
+                    [m \in 1..d.aux[1].width |-> FMul(P, cur[m], AuxFactor(P, d, rows, rands, m, i - 1))], i + 1)
 HonestAuxRows(P, d, rows, rands) ==
-  AuxRowsFrom(P, d.aux[1], rows, rands, [m \in 1..d.aux[1].width |-> 1], 1)
+  AuxRowsFrom(P, d, rows, rands, [m \in 1..d.aux[1].width |-> 1], 1)
 ValidAux(P, d, rows, arows, rands) ==
   LET ad == d.aux[1]  L == 2 ^ d.log_len IN
   /\ \A m \in 1..ad.width : arows[1][m] = 1
   /\ \A s \in 0..(L - d.exemptions - 1) : \A m \in 1..ad.width :
-        arows[s + 2][m] = FMul(P, arows[s + 1][m], FAdd(P, rows[s + 1][ad.src[m] + 1], rands[((m - 1) % ad.rands) + 1]))
+        arows[s + 2][m] = FMul(P, arows[s + 1][m], AuxFactor(P, d, rows, rands, m, s))
 
 (***************************************************************************)
 (* Corruptions of the honest trace and their structural classification     *)
 (***************************************************************************)
-\* corruption: [kind, col, row, delta, idx]; kinds: none | cell | row | col | pub | aux
+\* corruption: [kind, col, row, delta, idx]; kinds: none | cell | row | col | pub | aux | auxscale
+\* (auxscale: the whole auxiliary column `col` multiplied by 2 — every auxiliary transition constraint
+\*  still holds, only the assertion aux[col][0] = 1 is violated)
 ApplyCorruption(P, d, rows, k) ==
   CASE k.kind = "cell" -> [i \in 1..Len(rows) |-> [j \in 1..d.width |->
                               IF i = k.row + 1 /\ j = k.col + 1 THEN FAdd(P, rows[i][j], k.delta % P) ELSE rows[i][j]]]
@@ -189,6 +200,7 @@ CertainUnsat(d, k) ==
     [] k.kind = "col"  -> \E s \in 0..(L - 1) : <<k.col, s>> \in AllAssertedCells(d) /\ (k.delta + s) % 97 # 0
     [] k.kind = "pub"  -> TRUE
     [] k.kind = "aux"  -> k.row <= L - d.exemptions
+    [] k.kind = "auxscale" -> TRUE
     [] OTHER -> FALSE
 CertainSat(d, k) ==
   LET L == 2 ^ d.log_len IN
